@@ -39,6 +39,34 @@ def variant_table(R, eng, u, body_name, rule):
     return out
 
 
+def exhaustive_table(P, u, b):
+    """esr_mask folded by the FDAI engine on every i16 (get_code answered with the number, helpers of the error module in
+    place) -> [(lo, hi, ("iv", m, m))] runs of equal results, or None when some number cannot be folded"""
+    from .. import scpi_models as M2
+    ms = dict(M2.FOLD_MODELS)
+
+    def m_get_code(eng_, st, fr, t, name, rname, args):
+        return K(st.extra["code"])
+    ms["scpi::error::ErrorCode::get_code"] = m_get_code
+    eng = fdai.Engine(P, u, inline=lambda n, r: r.startswith("scpi::error::") and not r.endswith("ErrorCode::get_code"), models=ms, loop_limit=64, max_paths=4, max_depth=10)
+    runs = []
+    for v in range(-32768, 32768):
+        st = fdai.State()
+        st.extra["code"] = v
+        try:
+            rs = eng.run(b, [RefV(Cell(fdai.SymV("self", "self"), "self"))], st)
+        except (fdai.TooManyPaths, RecursionError):
+            return None
+        if len(rs) != 1 or rs[0].outcome != "return" or not isinstance(rs[0].retval, K):
+            return None
+        m = rs[0].retval.v
+        if runs and runs[-1][2] == m and runs[-1][1] == v - 1:
+            runs[-1][1] = v
+        else:
+            runs.append([v, v, m])
+    return [(lo, hi, ("iv", m, m)) for lo, hi, m in runs]
+
+
 def run(R, tier):
     o = oracle()
     P = facts.program("dflt")
@@ -76,8 +104,14 @@ def run(R, tier):
         try:
             table, evals = intervals.decision_table(b.mir, mk, -32768, 32767, model)
         except (intervals.Unsupported, intervals.Undecided) as e:
-            table = None
-            R.violation("R14.1", "esr_mask:undecidable", "interval analysis cannot decide esr_mask (%s); failing closed" % e, where=b.span)
+            # the interval interpreter does not know a construct the function uses (a lookup table, an adaptor chain ...):
+            # decide the same 65 536 numbers by folding the function on every one of them
+            table = exhaustive_table(P, u, b)
+            if table is None:
+                R.violation("R14.1", "esr_mask:undecidable", "neither the interval analysis (%s) nor constant folding on every number can decide esr_mask; failing closed" % e, where=b.span)
+            else:
+                evals = 65536
+                R.note("R14.1 decided by folding esr_mask on each of the 65536 numbers (interval analysis: %s)" % e) if hasattr(R, "note") else None
         if table is not None:
             R.count("esr_mask_intervals", len(table))
             R.count("esr_mask_interval_evaluations", evals)
